@@ -73,7 +73,10 @@ class OptimizationAbstract(ABC, Generic[T]):
         :return the cost of the position, or the list of costs if the objective function is multi-objective
         :rtype: float | list[float]
         """
-        return self._task.solve(x) if self._task.minmax == TaskType.MIN else -1 * self._task.solve(x)
+        cost = self._task.solve(x)
+        if self._task.minmax == TaskType.MIN:
+            return cost
+        return [-c for c in cost] if isinstance(cost, list) else -1 * cost
 
     def _init_agent(self, position: list[Any] | np.ndarray | None = None) -> Agent:
         """
